@@ -32,10 +32,13 @@ META = dict(
               "and constraint computed inside the loop), chain / fan / mid (acyclic); 2-3 design-space orders per system (couplings before / between / after the "
               "design variables, an extra variable that no discipline reads); IDF with normalize_constraints True/False, coupling variables bounded (concrete "
               "bounds, a different range per component), unbounded or bounded below only; user constraint g as eq / ineq with value 0 or 1/4, positive or not; "
+              "objective and constraint outputs exchanged (vector objective); disciplines listed in 2 orders; "
               "leaf disciplines filling all Jacobian blocks or only the requested ones; evaluate-then-jac at one symbolic point, then jac-then-evaluate at a "
               "second symbolic point; MDF with MDAChain(inner MDAGaussSeidel | MDAJacobi), MDAGaussSeidel, MDAJacobi as main MDA, warm-started at a symbolic "
-              "consistent point; on acyclic systems DisciplinaryOpt, MDF(MDAChain, chain_linearize=True) and IDF, values and total derivatives; "
-              "design-space variable sets of the three formulations on 7 coupling graphs (concrete)",
+              "consistent point (evaluated once or twice), compared with IDF on fresh disciplines at (x, y*); on acyclic systems DisciplinaryOpt, "
+              "MDF(MDAChain, chain_linearize=True) and IDF at the forward-evaluated couplings: values, total derivatives against a forward-accumulation oracle, "
+              "IDF partials consistent with them (partial + d/dy . dy/dx; 0 for the consistency constraints); "
+              "design-space variable sets of the three formulations on 7 coupling graphs (concrete), IDF refusing a design space without a coupling",
         thorough="same systems, full product of orders x switches",
     ),
     outside=[
@@ -47,6 +50,8 @@ META = dict(
         "self-coupled disciplines, sub-scenarios as disciplines, sparse / operator partial derivatives of the leaf disciplines",
         "a coupling variable with equal bounds (normalization factor 0: the documented division is undefined)",
         "DisciplinaryOpt with the disciplines listed in an order that is not an execution (topological) order",
+        "a change confined to BiLevel, to JacobianAssembly / the coupled adjoint, to the Newton-type MDAs, to scenario / driver code or to "
+        "preprocess_functions (normalisation of the design vector, C01) is NOT detected",
         "the shape of a Jacobian with a single output component ((n,) and (1, n) are both accepted), whether IDF keeps a design variable that no discipline reads (it does)",
     ],
     stubs=[
